@@ -446,6 +446,53 @@ Section Main.
 End Main.
 
 (* ------------------------------------------------------------------------------------------ *)
+(* The same for ANY writer of this shape: an arbitrary sequence of operations that never put the reference
+   header's distinguishing byte in place (stores through the mapping in any order and any chunking, writes
+   split at any point -- so also a process killed inside a write --, truncations, syncs), then fsync, then
+   ONE store of the header within the first page, then only syncs / unmaps / close. *)
+Section General.
+  Variable pm_ok : list byte -> bool.
+  Variable body_size : loader_cfg -> list byte -> nat.
+  Variable words_ok : list byte -> list byte -> bool.
+  Notation load := (load pm_ok body_size words_ok).
+
+  Lemma general_phases : forall A T hop hdr t1 t2,
+    Forall safe_op A -> Forall quiet_op T -> hop = MapStore 0 hdr \/ hop = Write 0 hdr -> length hdr <= page ->
+    A ++ Fsync :: hop :: T = t1 ++ t2 ->
+    (len_inv (run empty_file t1) /\ no_header (run empty_file t1)) \/
+    header_phase (length hdr) (cache (run empty_file (A ++ [Fsync; hop]))) (run empty_file t1).
+  Proof.
+    intros A T hop hdr t1 t2 HA HT Hop Hlen E.
+    assert (HA' : Forall safe_op (A ++ [Fsync])) by (apply Forall_app; split; [exact HA|repeat constructor]).
+    replace (A ++ Fsync :: hop :: T) with ((A ++ [Fsync]) ++ hop :: T) in E by (rewrite <- app_assoc; reflexivity).
+    symmetry in E. destruct (prefix_split _ _ _ _ _ E) as [[r Hr]|[t' [Ht [r Hr]]]].
+    - left. destruct (run_prefix_no_header _ empty_file HA' eq_refl empty_no_header t1 r Hr). tauto.
+    - right. subst t1.
+      destruct (run_prefix_no_header _ empty_file HA' eq_refl empty_no_header (A ++ [Fsync]) [] (eq_sym (app_nil_r _))) as [Hn Hl].
+      assert (Hs : durable (run empty_file (A ++ [Fsync])) = cache (run empty_file (A ++ [Fsync]))) by (rewrite run_app; reflexivity).
+      assert (Hfin : cache (run empty_file (A ++ [Fsync; hop])) = cache (step (run empty_file (A ++ [Fsync])) hop)).
+      { replace (A ++ [Fsync; hop]) with ((A ++ [Fsync]) ++ [hop]) by (rewrite <- app_assoc; reflexivity).
+        rewrite run_app. reflexivity. }
+      rewrite Hfin. rewrite (run_app empty_file (A ++ [Fsync]) (hop :: t')).
+      change (run (run empty_file (A ++ [Fsync])) (hop :: t')) with (run (step (run empty_file (A ++ [Fsync])) hop) t').
+      eapply run_header_phase; eauto.
+      apply (header_store_phase (run empty_file (A ++ [Fsync])) hop hdr); auto.
+  Qed.
+
+  Lemma general_crash : forall A T hop hdr t1 t2 sel L cfg v,
+    Forall safe_op A -> Forall quiet_op T -> hop = MapStore 0 hdr \/ hop = Write 0 hdr -> length hdr <= page ->
+    A ++ Fsync :: hop :: T = t1 ++ t2 ->
+    load cfg (crash_image (run empty_file t1) sel L) = Some v ->
+    reads_agree (cache (run empty_file (A ++ [Fsync; hop]))) v /\ length (fst v) <= L.
+  Proof.
+    intros A T hop hdr t1 t2 sel L cfg v HA HT Hop Hlen E H.
+    destruct (general_phases A T hop hdr t1 t2 HA HT Hop Hlen E) as [[Hl Hn]|Hp].
+    - rewrite crash_no_header in H by assumption. discriminate.
+    - eapply crash_header_phase; eauto.
+  Qed.
+End General.
+
+(* ------------------------------------------------------------------------------------------ *)
 (* the trace as the system-call tracer sees it *)
 Lemma shapes_app : forall a b, shapes (a ++ b) = shapes a ++ shapes b.
 Proof.
